@@ -25,6 +25,11 @@ for pid in props:
         })
     else:
         na.append({"property_id": pid, "reason": (c or {}).get("reason", "check not built yet in this round (planned: Lean 4 model + correspondence, see DESIGN.md §2)")})
+import subprocess
+try:
+    fixes = [l.strip() for l in subprocess.run(["git", "-C", "/repo", "log", "--format=%h %s"], capture_output=True, text=True).stdout.splitlines() if " fix:" in l or l.split(" ", 1)[-1].startswith("fix:")]
+except Exception:
+    fixes = []
 m = {
     "version": 1,
     "setup_cmd": "./setup.sh",
@@ -34,7 +39,7 @@ m = {
     "engines": [{"name": "lean4-proof+correspondence", "path": "lean/ + harness/", "serves_properties": [c["property_id"] for c in checks],
                  "kind_free_text": "Lean 4.33 + Mathlib theorems over executable models (lean/CuqiVerif), tied to /repo by line-protocol differential checks (harness/props) and an AST table translator (harness/translate)"}],
     "checks": checks,
-    "notes": "All checks: ./check Cxx --tier quick|thorough; VERIF_SEED respected; KNOWN_FINDINGS.jsonl lists genuine defects of the pinned tree (printed as KNOWN-FINDING, exit 0).",
+    "notes": "All checks: ./check Cxx --tier quick|thorough; VERIF_SEED respected; KNOWN_FINDINGS.jsonl (+ known/Cxx.jsonl, same format) list genuine defects of the pinned tree (printed as KNOWN-FINDING, exit 0) and 'fixed' records for the defects repaired in /repo by these unguarded fix: commits: " + "; ".join(fixes) + ". No source hooks were added to /repo (hooks.source_commits is empty).",
     "not_applicable": na,
 }
 json.dump(m, open(os.path.join(V, "MANIFEST.json"), "w"), indent=1)
